@@ -56,6 +56,14 @@ pub mod bbsplus_utils {
             }
             Ok(scalar)
         }
+
+        pub(crate) fn scalars_not_zero<'de, D: Deserializer<'de>>(d: D) -> Result<Vec<Scalar>, D::Error> {
+            let scalars = Vec::<Scalar>::deserialize(d)?;
+            if scalars.iter().any(|s| *s == Scalar::ZERO) {
+                return Err(D::Error::custom("zero scalar"));
+            }
+            Ok(scalars)
+        }
     }
 
     pub(crate) fn parse_g2_projective_compressed(slice: &[u8]) -> Result<G2Projective, Error> {
